@@ -22,7 +22,7 @@ def cases(tier, rng):
             yield J('ell_geom', x, y, w, h, 2)
             yield J('ell_offset', x, y, w, h, (k % 9) - 4)
             yield J('ell_wc', y, x, w, h)
-    # larger and random shapes (sizes where the u32 products of the implementation do not overflow)
+    # larger and random shapes
     n = 150 if tier == 'quick' else 1500
     for _ in range(n):
         x, y = coord(rng), coord(rng)
@@ -33,6 +33,10 @@ def cases(tier, rng):
                            (rng.randrange(0, 120), rng.randrange(0, 6))])
         yield J('ell_geom', x, y, w, h, 1)
         yield J('ell_offset', x, y, w, h, rng.randrange(-40, 41))
+    # display-sized shapes (the ellipse test needs 64 bit products here: repair c18b215)
+    for (w, h) in [(320, 240), (400, 3), (3, 400), (257, 255), (2, 301)] + ([(640, 480), (1000, 7)] if tier != 'quick' else []):
+        yield J('ell_geom', -160, -100, w, h, 1)
+    yield J('circ_geom', -100, -130, 240 if tier == 'quick' else 500, 1)
     for _ in range(n):
         # range edges of the model's saturating operations (positions only; no point lists)
         x, y = coord(rng, True), coord(rng, True)
@@ -78,9 +82,10 @@ RULE = ('Rectangle/Circle/Ellipse: correspondence of contains() over the boundin
         'and random sizes up to 200. non-trivial = the shape has at least one point.')
 EXHAUSTIVE = {'quick': False, 'thorough': False}
 ASSUMPTIONS = ['top-left coordinates within +-2^29, diameter / width / height within 0..2^29: the range in which the saturating '
-               'operations of the model are not reached; products (diameter^2, width^2*height^2) are unbounded integers in the '
-               'model while the code computes them in u32 - agreement therefore needs diameter < 2^16 resp. width*height < 2^16 '
-               '(display-scale overflow is the subject of C08, not of C05)']
+               'operations of the model are not reached; products (diameter^2, width^2*height^2, squared doubled distances) are unbounded '
+               'integers in the model while the code computes the circle test in i32/u32 and the ellipse test in i64/u64 (since c18b215) - '
+               'agreement therefore needs diameter < 2^15 resp. width*height < 2^31 and probe points within that distance of the centre '
+               '(arithmetic overflow at larger sizes is the subject of C08, not of C05)']
 TRUSTED = ['modelled, not verified: `as u32` of a non-negative i32 squared distance, u32 `/` as Z.div, Range<i32>::find as List.find '
            'over the integer range']
 PARTIAL = []
@@ -96,4 +101,4 @@ LEVEL_TEXT = ('Proof: Coq theorems over the Gallina models of Rectangle, Circle 
 LEVEL_NOTE = ('Trusted: Coq kernel, extraction (ExtrOcamlBasic), the OCaml/Rust drivers; the hand-written model is validated by '
               'differential testing, not proved equal to the Rust code; arithmetic is unbounded Z (see assumptions).')
 
-CLAIMED = False
+CLAIMED = True
